@@ -16,6 +16,7 @@ import (
 	"go/constant"
 	"go/token"
 	"go/types"
+	"strings"
 
 	"golang.org/x/tools/go/packages"
 	"golang.org/x/tools/go/types/typeutil"
@@ -408,6 +409,19 @@ func (env *Env) evalCall(c *ast.CallExpr) *Val {
 	return ret[0]
 }
 
+// evalCallEffects runs a call of a function of the module for its effects (a function without results included).
+func (env *Env) evalCallEffects(c *ast.CallExpr) {
+	defer func() {
+		if r := recover(); r != nil {
+			if ee, ok := r.(evalErr); ok && strings.Contains(ee.msg, "does not return a value on this path") {
+				return
+			}
+			panic(r)
+		}
+	}()
+	env.evalCallN(c)
+}
+
 // evalCallN evaluates a call of a function of the module by running its body; it returns all results.
 func (env *Env) evalCallN(c *ast.CallExpr) []*Val {
 	info := env.Pkg.TypesInfo
@@ -640,11 +654,27 @@ func (env *Env) execBlock(list []ast.Stmt) ([]*Val, bool) {
 				for i, nm := range vs.Names {
 					if i < len(vs.Values) {
 						env.Vars[info.Defs[nm]] = env.eval(vs.Values[i])
-					} else {
-						env.Vars[info.Defs[nm]] = &Val{C: constant.MakeInt64(0), Fields: map[string]*Val{}}
+					} else if o := info.Defs[nm]; o != nil {
+						if z := zeroVal(o.Type()); z != nil {
+							env.Vars[o] = z
+						} else {
+							env.Vars[o] = &Val{C: constant.MakeInt64(0), Fields: map[string]*Val{}}
+						}
 					}
 				}
 			}
+		case *ast.ExprStmt:
+			// a call for its effects on the values it is handed (env.overlay(s))
+			if c, ok := ast.Unparen(x.X).(*ast.CallExpr); ok {
+				if env.Hook != nil {
+					if _, handled := env.Hook(env, c); handled {
+						continue
+					}
+				}
+				env.evalCallEffects(c)
+				continue
+			}
+			env.fail(s, "expression statement")
 		case *ast.RangeStmt:
 			if !env.RangeOnce {
 				env.fail(s, fmt.Sprintf("statement %T", s))
